@@ -86,7 +86,7 @@ def box_selectors(draw, nb):
 
 @st.composite
 def cases(draw, tier="quick"):
-    spec = draw(plotgen.plot_specs(thin=True, many=True, max_cells=3000 if tier == "quick" else 10000, max_fields=7,
+    spec = draw(plotgen.plot_specs(thin=True, many=True, level_prefix=True, max_cells=3000 if tier == "quick" else 10000, max_fields=7,
                                    payload_kinds=("special", "coded", "random")))
     if draw(st.integers(0, 2 ** 16)) % 4 == 1:
         # index space not starting at 0 (negative low indices are legal in AMReX, e.g. a domain centred on the origin)
@@ -101,7 +101,8 @@ def cases(draw, tier="quick"):
         lv = draw(st.sampled_from(list(range(L + 1)) * 8 + [L + 1, -1] + list(range(-(L + 3), 0))))
         nb = len(plot.levels[min(max(lv, 0), plot.nlev - 1) if lv >= 0 else max(L + 1 + lv, 0)]["boxes"])
         queries.append(dict(f=draw(field_selectors(nf)), lv=lv, b=draw(box_selectors(nb))))
-    return dict(spec=spec, limit=limit, queries=queries)
+    from ..harness import VIAS
+    return dict(spec=spec, limit=limit, queries=queries, via=VIAS[draw(st.integers(0, 2 ** 16)) % len(VIAS)])
 
 
 def compact(case):
@@ -180,7 +181,11 @@ def check_case(case, ctx):
     from amr_kitchen import PlotfileCooker
     ctx.fresh()
     plot = plotgen.Plot(case["spec"])
-    plotgen.write(plot, "src")
+    from ..harness import place_plotfile
+    decoy = plotgen.Plot(dict(case["spec"], payload=dict(kind="random", seed=4242)))
+    src = place_plotfile(lambda pth: plotgen.write(plot, pth), case.get("via"), lambda pth: plotgen.write(decoy, pth))
+    if case.get("via"):
+        ctx.label("path:" + case["via"])
     names = plot.fields
     nf = plot.nf
     limit = case["limit"]
@@ -192,7 +197,7 @@ def check_case(case, ctx):
     noncubic_box = any(len(set(plot.box_shape(l, b))) > 1 for l in range(plot.nlev) for b in range(len(plot.levels[l]["boxes"])))
     shifted = any(plot.shift0)
     try:
-        pck = qcall(PlotfileCooker, "src", limit_level=limit)
+        pck = qcall(PlotfileCooker, src, limit_level=limit)
     except Exception as e:
         if shifted:
             # an index space that does not start at 0 is legal AMReX but outside what the reader's metadata supports:
